@@ -782,6 +782,8 @@ def rebuilt_from_edges_rule(rc, prefixes, exempt=(), only=None):
             if not (isinstance(a0, ast.Call) and call_name(a0) == "edges" and isinstance(a0.func, ast.Attribute) and not a0.args):
                 continue
             src = norm(a0.func.value)
+            if isinstance(a0.func.value, ast.Call) and call_name(a0.func.value) in ("minimum_spanning_tree", "maximum_spanning_tree", "minimum_spanning_arborescence"):
+                continue  # a spanning tree keeps every node of the graph it spans
             n += 1
             par = getattr(c, "_parent", None)
             tgt = dotted(par.targets[0]) if isinstance(par, ast.Assign) and len(par.targets) == 1 else None
